@@ -283,3 +283,28 @@ PROPS["C16"] = {
         "the sender's reconnect timer is 1 s of real time: at most one connect failure per generated case",
     ],
 }
+
+PROPS["C17"] = {
+    "pkg": "c17", "level": "exploration",
+    "jobs": {
+        "quick": [
+            {"name": "probes", "kind": "plain", "run": "^TestProbe"},
+            {"name": "payloads", "run": "^TestPayloadsCarryEverySeriesOnce$", "checks": 640, "shards": 8},
+            {"name": "relay", "run": "^TestRelayRoundTrip$", "checks": 640, "shards": 4},
+            {"name": "relay-events", "run": "^TestRelayEvents$", "checks": 400, "shards": 2},
+        ],
+        "thorough": [
+            {"name": "probes", "kind": "plain", "run": "^TestProbe"},
+            {"name": "payloads", "run": "^TestPayloadsCarryEverySeriesOnce$", "checks": 64000, "shards": 10, "timeout": 1700},
+            {"name": "relay", "run": "^TestRelayRoundTrip$", "checks": 64000, "shards": 4, "timeout": 1700},
+            {"name": "relay-events", "run": "^TestRelayEvents$", "checks": 40000, "shards": 2, "timeout": 1700},
+        ],
+    },
+    "assumptions": [
+        "datapoints are attributed to a series by the name token contained in the emitted metric name and by the decoded tag set (and host where the backend's format carries it: datadog, newrelic, otlp, graphite tags mode, the relay); influxdb, cloudwatch and graphite legacy/basic do not transmit the source and graphite legacy/basic drop tags (documented), so those are compared without host resp. tags",
+        "values are compared as multisets per series identity with tolerance 1e-6 absolute / 1e-9 relative (text formats print 6 decimals)",
+        "newrelic flush-type metrics always carries count/sum/min/max in its summary metric; under a sub-metric mask that variant is only checked for validity",
+        "tags have distinct keys, non-numeric-ambiguous values and at most one value-less tag so that every backend's tag encoding is invertible",
+        "stdout and null have no wire payload and are not part of this property",
+    ],
+}
